@@ -990,3 +990,7 @@ func (in *inst) order(hs []Hash, proof u.Proof) ([]Hash, u.Proof) {
 	}
 	return rh, u.Proof{Targets: rt, Proof: proof.Proof}
 }
+
+func (f *HistFamily) CaseOf(hist []Op) (Case, string) {
+	return mkCase("hist", histPayload{Fam: *f, Hist: hist}), histStr(hist)
+}
